@@ -3,7 +3,7 @@
 import traceback2
 import itertools
 
-from kernel.type import TVar, TConst, TFun, BoolType
+from kernel.type import TVar, TConst, TFun, BoolType, TypeMatchException
 from kernel import term
 from kernel.term import Term, Var, Const, And, Implies, Not, Eq, Forall
 from kernel.thm import Thm
@@ -76,6 +76,38 @@ class Item:
             }
         return res
 
+
+def types_overlap(T1, T2):
+    """Whether one of the two types is an instance of the other."""
+    for S1, S2 in ((T1, T2), (T2, T1)):
+        try:
+            S1.convert_stvar().match(S2)
+            return True
+        except TypeMatchException:
+            pass
+    return False
+
+def term_tvars(t):
+    """List of type variables appearing in the term t."""
+    res = []
+    def rec(t):
+        if t.is_svar() or t.is_var() or t.is_const():
+            Ts = [t.T]
+        elif t.is_comb():
+            rec(t.fun)
+            rec(t.arg)
+            Ts = []
+        elif t.is_abs():
+            rec(t.body)
+            Ts = [t.var_T]
+        else:
+            Ts = []
+        for T in Ts:
+            for tv in T.get_tvars():
+                if tv not in res:
+                    res.append(tv)
+    rec(t)
+    return res
 
 def export_term(t):
     """Function for printing a term for export to json."""
@@ -339,10 +371,25 @@ class Definition(Item):
             f, args = self.prop.lhs.strip_comb()
             if f != Const(self.name, self.type):
                 raise ItemException("Definition %s: wrong head of lhs" % self.name)
+            if not all(v.is_var() for v in args):
+                raise ItemException("Definition %s: arguments on lhs must be variables" % self.name)
             lhs_vars = set(v.name for v in args)
             rhs_vars = set(v.name for v in self.prop.rhs.get_vars())
             if len(lhs_vars) != len(args):
                 raise ItemException("Definition %s: variables on lhs must be distinct" % self.name)
+
+            # The constant being defined should not occur on the rhs (except at
+            # a different instance of an overloaded constant), and every type
+            # variable on the rhs should appear in the type of the constant.
+            for c in self.prop.rhs.get_consts():
+                if c.name == self.name and \
+                   (not theory.thy.is_overload_const(self.name) or types_overlap(c.T, self.type)):
+                    raise ItemException("Definition %s: constant occurs in rhs" % self.name)
+            rhs_tvars = term_tvars(self.prop.rhs)
+            if not set(rhs_tvars).issubset(set(self.type.get_tvars())):
+                raise ItemException(
+                    "Definition %s: extra type variables in rhs: %s" % (
+                        self.name, ", ".join(str(T) for T in rhs_tvars if T not in self.type.get_tvars())))
             if not rhs_vars.issubset(lhs_vars):
                 raise ItemException(
                     "Definition %s: extra variables in rhs: %s" % (
